@@ -152,7 +152,10 @@ def run_history(repo, seq):
         except Exception:  # noqa: BLE001
             ran = False
         if ran != expect_ok:
-            problems.append((i, "outcome", f"{op}: {'succeeded' if ran else 'failed'} but the reference says it {'succeeds' if expect_ok else 'fails'}"))
+            # a comment statement that succeeds although its table does not exist is its own class of failure (a known finding
+            # is keyed on it), whatever else the history did before
+            aspect = "comment-on-missing" if (op in ("comment", "set_comment") and ran and not expect_ok) else "outcome"
+            problems.append((i, aspect, f"{op}: {'succeeded' if ran else 'failed'} but the reference says it {'succeeds' if expect_ok else 'fails'}"))
             return problems
         if ran:
             apply_ref(cat, op, "DB1", "S1")
